@@ -102,6 +102,41 @@ static void ext_mode(long n) {
   }
 }
 
+// ---------------------------------------------------------------- pages filled to capacity (implementation-side oracle)
+// mode "fill <seed> <n>": for every small / medium size class a fresh heap allocates enough blocks to fill several pages completely
+// (interleaved with blocks of other classes, so that neighbouring pages are in use), writes a pattern over the whole usable size of
+// every block, and checks that no two live blocks overlap and that every pattern is intact
+typedef struct fb_s { uint8_t* p; size_t us; uint32_t pat; } fb_t;
+static int fb_cmp(const void* a, const void* b) { const fb_t* x = (const fb_t*)a; const fb_t* y = (const fb_t*)b; return x->p < y->p ? -1 : (x->p > y->p ? 1 : 0); }
+static int nfill_fail = 0;
+static void fill_mode(long n) {
+  static const size_t BS[] = { 8, 16, 24, 32, 40, 48, 56, 64, 80, 96, 112, 128, 160, 192, 256, 320, 512, 1024, 2048, 4096, 8192 };
+  static fb_t blk[140000];
+  for (int c = 0; c < 21; c++) {
+    mi_heap_t* h = mi_heap_new();
+    size_t bs = BS[c];
+    size_t pagesz = (bs <= MI_SMALL_OBJ_SIZE_MAX ? MI_SMALL_PAGE_SIZE : MI_MEDIUM_PAGE_SIZE);
+    long want = (long)(3 * pagesz / bs) + 64; if (want > 100000) want = 100000; if (n > 0 && want > n) want = n;
+    long nb = 0;
+    for (long i = 0; i < want; i++) {
+      size_t req = bs - (size_t)(rnd() % (bs < 16 ? bs : 8));                     // any request size of the class
+      uint8_t* p = (uint8_t*)mi_heap_malloc(h, req ? req : 1);
+      if (p == NULL) { printf("FAIL c01_alloc_failed fill class %zu\n", bs); nfill_fail++; break; }
+      blk[nb].p = p; blk[nb].us = mi_usable_size(p); blk[nb].pat = (uint32_t)rnd(); nb++;
+      if (i % 97 == 0) { size_t o = BS[(c + 5 + i / 97) % 21]; uint8_t* q = (uint8_t*)mi_heap_malloc(h, o); if (q) { blk[nb].p = q; blk[nb].us = mi_usable_size(q); blk[nb].pat = (uint32_t)rnd(); nb++; } }
+    }
+    for (long i = 0; i < nb; i++) memset(blk[i].p, (int)(blk[i].pat & 0xff), blk[i].us);
+    long bad = 0;
+    for (long i = 0; i < nb && bad < 3; i++) for (size_t j = 0; j < blk[i].us; j += (blk[i].us > 64 ? 61 : 1)) if (blk[i].p[j] != (uint8_t)(blk[i].pat & 0xff)) { printf("FAIL c01_content_changed fill class %zu: block %ld [%p,+%zu) byte %zu was overwritten by a later block\n", bs, i, (void*)blk[i].p, blk[i].us, j); bad++; nfill_fail++; break; }
+    qsort(blk, (size_t)nb, sizeof(fb_t), fb_cmp);
+    for (long i = 0; i + 1 < nb; i++) if (blk[i].p + blk[i].us > blk[i + 1].p) { printf("FAIL c01_overlap fill class %zu: live blocks [%p,+%zu) and [%p,+%zu) overlap (%ld blocks of the class allocated)\n", bs, (void*)blk[i].p, blk[i].us, (void*)blk[i + 1].p, blk[i + 1].us, want); nfill_fail++; break; }
+    printf("FILL %zu %ld\n", bs, nb);
+    for (long i = 0; i < nb; i++) mi_free(blk[i].p);
+    mi_heap_delete(h);
+  }
+  printf("STAT fill_failures %d\n", nfill_fail);
+}
+
 // ---------------------------------------------------------------- segment
 static mi_segment_t* SEG; static mi_segments_tld_t* TLD;
 static void dump_seg(void) {
@@ -184,7 +219,7 @@ int main(int argc, char** argv) {
   if (argc < 4) { fprintf(stderr, "usage: c01 page|seg|snap <seed> <steps>\n"); return 2; }
   uint64_t seed = strtoull(argv[2], 0, 10); long steps = atol(argv[3]);
   rs ^= seed * 0x9E3779B97F4A7C15ULL; if (!rs) rs = 1; for (int i = 0; i < 8; i++) rnd();
-  if (strcmp(argv[1], "page") == 0) page_mode(steps); else if (strcmp(argv[1], "ext") == 0) ext_mode(steps); else if (strcmp(argv[1], "seg") == 0) seg_mode(steps); else snap_mode(steps);
+  if (strcmp(argv[1], "page") == 0) page_mode(steps); else if (strcmp(argv[1], "ext") == 0) ext_mode(steps); else if (strcmp(argv[1], "fill") == 0) fill_mode(steps); else if (strcmp(argv[1], "seg") == 0) seg_mode(steps); else snap_mode(steps);
   printf("DONE\n"); fflush(stdout);
   return 0;
 }
